@@ -46,7 +46,8 @@ def gen_value(rng):
 def gen_item(rng, section, blank_ok=True):
     m = fields.mnemonic(rng)
     if rng.random() < 0.08:
-        m = rng.choice(["STRT", "NULL", "COMP", "VERS", "A", "A"]) if section in ("Parameter", "Curves") else rng.choice(["A", "A", "COMP", "UWI", "API"])
+        m = rng.choice(["STRT", "NULL", "COMP", "VERS", "A", "A"]) if section in ("Parameter", "Curves") else \
+            rng.choice(["A", "A", "COMP", "UWI", "API", "NULL", "null", "strt", "step"]) if section == "Well" else rng.choice(["A", "A", "COMP", "UWI", "API"])
     u = fields.unit(rng)
     v = gen_value(rng)
     d = fields.text(rng, colons=False)
